@@ -14,12 +14,7 @@ import (
 
 // gen.go: scenario generation, the retry loop that pins the Go map iteration orders, case output.
 
-const (
-	maxAttempts = 5000
-	// when this many attempts flushed a mail and none of them wrote the view storage first, the
-	// implementation orders the storages (the repaired FlushBundles): the order is taken as it comes
-	giveUpAfter = 80
-)
+const maxAttempts = 5000
 
 type caseDesc struct {
 	Scenario scenario `json:"scenario"`
@@ -41,7 +36,6 @@ func genScenario(rng *kit.Rng) scenario {
 	case x < 84:
 		sc.Stream, sc.WithMail, sc.Faults, sc.Stops = "mail", true, rng.Intn(3), rng.Intn(2)
 		sc.MaxEvents = 1 + rng.Intn(5)
-		sc.MailFirst = rng.Chance(1, 4)
 	case x < 92:
 		sc.Stream, sc.Faults = "malformed", rng.Intn(2)
 	default:
@@ -62,19 +56,10 @@ func genScenario(rng *kit.Rng) scenario {
 // canonical ones of the scenario (so that a fixed seed gives the same trace on every run)
 func runCase(bubble func(func()), sc scenario) *driver {
 	var d *driver
-	mailAttempts, sawViewFirst := 0, false
 	for attempt := 0; attempt < maxAttempts; attempt++ {
 		ok := false
-		last := attempt == maxAttempts-1 || (mailAttempts >= giveUpAfter && !sawViewFirst)
+		last := attempt == maxAttempts-1
 		bubble(func() { d, ok = runOnce(sc, last) })
-		if d.mailFlushes > 0 {
-			mailAttempts++
-		}
-		for _, o := range d.orderSeen {
-			if o == "view-first" {
-				sawViewFirst = true
-			}
-		}
 		if ok {
 			if last && d.wrongOrder {
 				d.tag("map-order:not-canonical")
